@@ -23,6 +23,7 @@
 import Gama.Lemmas.StatanLoops
 import Gama.Lemmas.StatanMono
 import Gama.Lemmas.StatanHill
+import Gama.Lemmas.StatanGenTie
 namespace Gama.Props.C17
 open Gama Gama.Statan Real
 
@@ -311,5 +312,37 @@ example : StatanGen.chiSel 3 (1.96 : ℝ) = true ∧ StatanGen.chiSel 30 (1.96 :
     rw [e, if_pos (by norm_num), Int.floor_eq_iff]; constructor <;> norm_num
   unfold StatanGen.chiSel
   simp [h]
+
+/-! ## Source tie of the coefficients, thresholds and branches (round 7)
+
+`Gen/StatanFns.lean` is rewritten from `statan.cpp` on every run: `Normal`, `Student`, `Chi_square`,
+`NormalDistribution`, one line per C++ statement, every literal the exact decimal of the source. -/
+
+/-- **the model is the function the source defines now**, for every scalar type (`Float` in the driver, `ℝ` in the
+    theorems above): `NormalDistribution` (density constant 0.3989422804014327, the `x == 0` shortcut, the underflow
+    branch, the thresholds 2.32 / 3.5, the start of both loops, the final `s − D` test; `maxd`, `mind`), `Normal` (all
+    coefficients of the rational start correction and of the refinement step), `Student` (closed forms, Hill's prelude,
+    threshold `a + 0.05`, both Hill branches) and `Chi_square` (selector and both polynomials).  A changed coefficient,
+    threshold, sign, branch or statement order in the C++ changes the right-hand sides and this proof fails.
+    (The BODIES of the two loops of `NormalDistribution` are pinned text in the translator: any change there stops it.) -/
+theorem C17_statan_source_tie {K : Type} [Scalar K] [Transc K] [Trunc K] (fuel : ℕ) :
+    (∀ x : K, normalDistribution fuel x = Gen.Statan.NormalDistribution fuel x) ∧
+    (∀ a : K, normal fuel a = Gen.Statan.Normal fuel a) ∧
+    (∀ (p : K) (N : ℤ), student fuel p N = Gen.Statan.Student fuel p N) ∧
+    (∀ (p : K) (n : ℤ), chiSquare fuel p n = Gen.Statan.Chi_square fuel p n) ∧
+    (maxd : K) = Gen.Statan.maxd ∧ (mind : K) = Gen.Statan.mind :=
+  ⟨normalDistribution_eq_gen fuel, normal_eq_gen fuel, student_eq_gen fuel, chiSquare_eq_gen fuel, rfl, rfl⟩
+
+/-- the symmetry clauses stated for the REGENERATED functions: `Normal(1 − α) = −Normal(α)`,
+    `Student(1 − α, N) = −Student(α, N)` for α ≠ ½, `Student(½, N) = 0` -/
+theorem C17_antisym_source (fuel : ℕ) (N : ℤ) {α : ℝ} (h : α ≠ 1 / 2) :
+    Gen.Statan.Normal fuel (1 - α) = - Gen.Statan.Normal fuel α ∧
+    Gen.Statan.Student fuel (1 - α) N = - Gen.Statan.Student fuel α N ∧
+    Gen.Statan.Student fuel (1 / 2 : ℝ) N = 0 := by
+  simp only [← normal_eq_gen, ← student_eq_gen]
+  exact ⟨normal_antisym fuel h, student_antisym fuel N h, student_half fuel N⟩
+
+-- non-vacuity: α = 1/4 ≠ 1/2
+example : (1 / 4 : ℝ) ≠ 1 / 2 := by norm_num
 
 end Gama.Props.C17
